@@ -126,3 +126,79 @@ def s_pteq(cx, rule, fn):
     oky = (not true_blocks) or (bool(ys) and not G.reachable_without(fn, true_blocks, [e for _, ps in ys for e in ps]))
     cx.add(rule, inst + '/x', okx, '`true` is returned only after x1*z2^2 == x2*z1^2 held (x tests bb%s; true exits bb%s, y-comparison returns bb%s)' % ([b_ for b_, _ in xs], true_blocks, ycmp_ret), fn.loc())
     cx.add(rule, inst + '/y', oky and bool(ys or ycmp_ret), '`true` is returned only after y1*z2^3 == y2*z1^3 held (a point and its negative share x)', fn.loc())
+
+
+# ---------------------------------------------------------------- duplicated arithmetic code must agree
+FPI2 = 'gm_sm2::fields::fp64::<impl fields::FieldModOperation for [u64; 4]>::'
+FPI9 = 'gm_sm9::fields::fp::<impl fields::FieldElement for [u64; 4]>::'
+N2P = {'SMx_N_PRIME': 'SMx_P_PRIME', 'SMx_N_NEG': 'SMx_MODP_MONT_ONE', 'SMx_MOD_N_2E512': 'SMx_MODP_2E512', 'SMx_N_MINUS_TWO': 'SMx_P_MINUS_TWO', 'SMx_N': 'SMx_P'}
+W512 = {'Eq(i@in, 7)': 'Eq(i@in, 3)', 'Eq(var:i@in, 7)': 'Eq(var:i@in, 3)', 'SubWithOverflow(7, j@in)': 'SubWithOverflow(3, j@in)'}
+SIBLINGS = [
+    # (label, [(function, substitution map)])
+    ('limb-add', [('gm_sm2::u256::u256_add', {}), ('gm_sm9::u256::u256_add', {}), ('gm_sm2::u256::u512_add', W512), ('gm_sm9::u256::u512_add', W512)]),
+    ('limb-sub', [('gm_sm2::u256::u256_sub', {}), ('gm_sm9::u256::u256_sub', {}), ('gm_sm2::u256::u512_sub', W512), ('gm_sm9::u256::u512_sub', W512)]),
+    ('limb-cmp', [('gm_sm2::u256::u256_cmp', {}), ('gm_sm9::u256::u256_cmp', {})]),
+    ('limb-mul', [('gm_sm2::u256::u256_mul', {}), ('gm_sm9::u256::u256_mul', {})]),
+    ('be-decode', [('gm_sm2::u256::u256_from_be_bytes', {}), ('gm_sm9::u256::u256_from_be_bytes', {})]),
+    ('be-encode', [('gm_sm2::u256::u256_to_be_bytes', {}), ('gm_sm9::u256::u256_to_be_bytes', {})]),
+    ('mont-mul', [('gm_sm2::fields::fp64::mont_mul', {}), ('gm_sm9::fields::fp::mont_mul', {}), ('gm_sm2::fields::fn64::mont_mul', N2P)]),
+    ('mod-add', [(FPI2 + 'fp_add', {}), (FPI9 + 'fp_add', {}), ('gm_sm2::fields::fn64::fn_add', N2P), ('gm_sm9::fields::mod_n_add', N2P)]),
+    ('mod-sub', [(FPI2 + 'fp_sub', {}), (FPI9 + 'fp_sub', {})]),
+    ('modn-sub', [('gm_sm2::fields::fn64::fn_sub', {}), ('gm_sm9::fields::mod_n_sub', {})]),
+    ('mod-neg', [(FPI2 + 'fp_neg', {}), (FPI9 + 'fp_neg', {})]),
+    ('mod-half', [(FPI2 + 'fp_div2', {}), (FPI9 + 'fp_div2', {})]),
+    ('mod-sqr', [(FPI2 + 'fp_sqr', {}), (FPI9 + 'fp_sqr', {})]),
+    ('mod-double', [(FPI2 + 'fp_double', {}), (FPI9 + 'fp_double', {})]),
+    ('mod-mul', [(FPI2 + 'fp_mul', {}), (FPI9 + 'fp_mul', {})]),
+    ('mod-inv', [(FPI2 + 'fp_inv', {}), (FPI9 + 'fp_inv', {})]),
+    ('mod-pow', [('gm_sm2::fields::fp64::fp_pow', {}), ('gm_sm9::fields::fp::fp_pow', {})]),
+    ('to-mont', [('gm_sm2::fields::fp64::fp_to_mont', {}), ('gm_sm9::fields::fp::fp_to_mont', {}), ('gm_sm2::fields::fn64::fn_to_mont', N2P)]),
+    ('from-mont', [('gm_sm2::fields::fp64::fp_from_mont', {}), ('gm_sm9::fields::fp::fp_from_mont', {}), ('gm_sm2::fields::fn64::fn_from_mont', {})]),
+    ('kdf', [('gm_sm2::util::kdf', {}), ('gm_sm9::key::kdf', {})]),
+]
+
+
+def s_siblings(cx, rule, only=None):
+    """implementations of the same operation (code duplicated between the SM2 and SM9 crates, between the 256- and
+    512-bit widths, and between the mod-p and mod-n variants) must have the same structure up to the listed renaming.
+    A deviation in one copy is either a defect there or in all the others (Engler-style cross-check)."""
+    import re
+    from .rules_i import fn_shape
+    n = 0
+    for label, members in SIBLINGS:
+        if only and label not in only:
+            continue
+        shapes = []
+        for name, sub in members:
+            fn = cx.F.fns.get(name)
+            if fn is None:
+                cx.lost(rule, '%s/%s' % (label, name), 'sibling implementation not found')
+                continue
+            s = fn_shape(fn, cx.F)
+            for a, b in sorted(sub.items(), key=lambda kv: -len(kv[0])):
+                s = s.replace(a, b)
+            s = re.sub(r'\b_\d+@in', 'tmp@in', s)
+            # identity transfers of (possibly unused) loop-local bindings carry no information
+            s = '\n'.join(l for l in s.split('\n') if not re.match(r"^loop (\w+)' = \1@in$", l))
+            # parameter names are irrelevant
+            for i in range(1, fn.arg_count + 1):
+                s = re.sub(r'\$%s\b' % re.escape(fn.local_name(i)), '$%d' % i, s)
+            shapes.append((name, s))
+        if len(shapes) < 2:
+            continue
+        n += 1
+        # majority shape
+        from collections import Counter
+        cnt = Counter(s for _, s in shapes)
+        major, _ = cnt.most_common(1)[0]
+        dev = [nm for nm, s in shapes if s != major]
+        if not dev:
+            cx.hold(rule, label, '%d implementations of %s agree structurally: %s' % (len(shapes), label, [m.split('::', 1)[1][-40:] for m, _ in shapes]))
+        else:
+            for nm in dev:
+                other = next(m for m, s in shapes if s == major)
+                fn = cx.F.fns[nm]
+                a = dict(shapes)[nm].split('\n'); b = major.split('\n')
+                diff = [(x, y) for x, y in zip(a, b) if x != y][:2]
+                cx.violate(rule, '%s/%s' % (label, nm.split('::', 1)[1]), '%s deviates from its sibling %s: %s' % (nm.split('::', 1)[1], other.split('::', 1)[1], diff or 'different number of statements'), fn.loc(), {'this': a, 'sibling': b})
+    return n
